@@ -270,6 +270,13 @@ theorem new_peer_terminates (net : Net) (addr : Nat) (tok : Bool) (hn : net.next
     (hlen : net.peers.length < idMod) : ∃ net1 pid, newPeer net addr tok = .ok (net1, pid) :=
   newPeer_ok_of_room net addr tok hn hlen
 
+/-- … in particular in every state reachable from a fresh endpoint -/
+theorem new_peer_terminates_reachable (acc : Bool) (h : History) (net' : Net) (outs : List (Ret × Out))
+    (hr : run (Net.new acc) h = .ok (net', outs)) (hlen : net'.peers.length < idMod)
+    (addr : Nat) (tok : Bool) : ∃ net1 pid, newPeer net' addr tok = .ok (net1, pid) :=
+  newPeer_ok_of_room net' addr tok
+    (run_next_lt h (Net.new acc) net' outs (by show Tw.Gen.Net.firstPeerId < idMod; decide) hr) hlen
+
 /-! ## non-vacuity, and the history of D22 -/
 
 example : histOk (Net.new true) exampleHistory = true := by decide
